@@ -305,6 +305,23 @@ Lemma isort_sorted (l : list K) : sortedb (isort l) = true.
 Proof. induction l as [|a l IH]; simpl; auto. apply insert_sorted_sorted. exact IH. Qed.
 End ISort.
 
+Lemma structure_executed {A : Arith} (leb_total : forall a b : T A, leb a b = true \/ leb b a = true)
+        (t : @ctable A) (dim : nat) (kk : list (T A)) :
+  wf_table t = true -> dim < length (c_dims t) -> 2 <= length kk ->
+  let t' := convolve isort t dim kk in
+  let d  := nth dim (c_dims t) dummy_dim in
+  let d' := nth dim (c_dims t') dummy_dim in
+  c_order d' = c_order d + length kk - 1
+  /\ sortedb (c_knots d') = true /\ Permutation (pairwise_sums (c_knots d) kk) (c_knots d')
+  /\ c_nknots d' = c_nknots d * length kk
+  /\ wf_table t' = true.
+Proof.
+  intros H1 H2 H3.
+  destruct (structure isort (isort_sorted leb_total) isort_perm factorial false t dim kk H1 H2 H3)
+    as (_ & E1 & E2 & E3 & E4 & _ & _ & _ & _ & E5).
+  repeat split; assumption.
+Qed.
+
 Lemma Qc_leb_total : forall a b : T QcA, leb a b = true \/ leb b a = true.
 Proof. exact (OF_leb_total QcA QcA_OField). Qed.
 
